@@ -54,6 +54,14 @@ def _match(p, n, b):
             return isinstance(b[k], ast.Name) and b[k].id == n.id
         b[k] = n
         return True
+    if isinstance(p, ast.arg) and p.arg.startswith(_NV):
+        if not isinstance(n, ast.arg):
+            return False
+        k = p.arg[len(_NV):]
+        if k in b:
+            return isinstance(b[k], ast.Name) and b[k].id == n.arg
+        b[k] = ast.Name(id=n.arg, ctx=ast.Load())
+        return True
     if isinstance(p, ast.AST):
         if type(p) is not type(n):
             return False
